@@ -336,6 +336,16 @@ func NewSubscription() *Subscription {
 	}
 }
 
+// notify hands a notification to the publish loop of the subscription. The queue
+// is bounded: when it is full the caller waits for the loop to catch up, but not
+// for a subscription that has been shut down, whose loop is gone.
+func (s *Subscription) notify(val *ua.MonitoredItemNotification) {
+	select {
+	case s.NotifyChannel <- val:
+	case <-s.shutdown:
+	}
+}
+
 func (s *Subscription) Update(req *ua.ModifySubscriptionRequest) {
 	s.RevisedPublishingInterval = req.RequestedPublishingInterval
 	s.RevisedLifetimeCount = req.RequestedLifetimeCount
